@@ -115,6 +115,8 @@ impl<H: Hasher> BatchMerkleProof<H> {
     ///   tree for which this batch proof was generated.
     /// * List of indexes contains duplicates.
     /// * The depth of the proof is 64 or more (a tree cannot have that many leaves).
+    /// * Number of provided indexes does not match the number of leaf nodes in the proof.
+    /// * The proof contains nodes which are not needed to compute the root.
     /// * The proof does not resolve to a single root.
     pub fn get_root(&self, indexes: &[usize]) -> Result<H::Digest, MerkleTreeError> {
         if indexes.is_empty() {
@@ -122,6 +124,9 @@ impl<H: Hasher> BatchMerkleProof<H> {
         }
         if indexes.len() > MAX_PATHS {
             return Err(MerkleTreeError::TooManyLeafIndexes(MAX_PATHS, indexes.len()));
+        }
+        if indexes.len() != self.leaves.len() {
+            return Err(MerkleTreeError::InvalidProof);
         }
         if self.depth as u32 >= usize::BITS {
             return Err(MerkleTreeError::InvalidProof);
@@ -243,6 +248,16 @@ impl<H: Hasher> BatchMerkleProof<H> {
                 i += 1;
             }
         }
+
+        // make sure all nodes of the proof have been used
+        if proof_pointers
+            .iter()
+            .zip(self.nodes.iter())
+            .any(|(&pointer, nodes)| pointer != nodes.len())
+        {
+            return Err(MerkleTreeError::InvalidProof);
+        }
+
         v.remove(&1).ok_or(MerkleTreeError::InvalidProof)
     }
 
@@ -257,6 +272,7 @@ impl<H: Hasher> BatchMerkleProof<H> {
     /// * Any of the specified `indexes` is greater than or equal to the number of leaves in the
     ///   tree for which this batch proof was generated.
     /// * List of indexes contains duplicates.
+    /// * The proof contains nodes which are not needed to compute the paths.
     pub fn into_paths(self, indexes: &[usize]) -> Result<Vec<Vec<H::Digest>>, MerkleTreeError> {
         if indexes.is_empty() {
             return Err(MerkleTreeError::TooFewLeafIndexes);
@@ -395,6 +411,15 @@ impl<H: Hasher> BatchMerkleProof<H> {
 
                 i += 1;
             }
+        }
+
+        // make sure all nodes of the proof have been used
+        if proof_pointers
+            .iter()
+            .zip(self.nodes.iter())
+            .any(|(&pointer, nodes)| pointer != nodes.len())
+        {
+            return Err(MerkleTreeError::InvalidProof);
         }
 
         original_indexes
